@@ -17,11 +17,11 @@ JOBS = min(14, os.cpu_count() or 4)
 
 # profiles: (name, quick cases, thorough cases)
 SPROPS = {
-    "C02": dict(profiles=[("fast", 250, 20000), ("list", 350, 30000), ("aba", 150, 12000)], tags={"C02"}, corpus=True,
+    "C02": dict(profiles=[("fast", 250, 20000), ("list", 350, 30000), ("aba", 150, 12000)], tags={"C02"}, corpus=True, seq=[("buf", 200, 6000)],
                 what="exclusive, intact live ranges under controlled thread interleavings"),
     "C07": dict(profiles=[("list", 500, 40000), ("fast", 100, 8000), ("aba", 150, 12000)], tags={"C07"}, corpus=True,
                 what="every operation finishes under fair schedules"),
-    "C12": dict(profiles=[("list", 300, 25000), ("fast", 150, 10000), ("refs", 250, 20000), ("aba", 100, 8000)], tags={"C12", "C13"}, corpus=True,
+    "C12": dict(profiles=[("list", 300, 25000), ("fast", 150, 10000), ("refs", 250, 20000), ("aba", 100, 8000)], tags={"C12", "C13"}, corpus=True, seq=[("buf", 200, 6000)],
                 what="happens-before for recycled memory and teardown"),
 }
 
@@ -628,6 +628,52 @@ def traits_stage():
         out.append(("C12", "sync-arena-not-shareable", f"sync::Arena is no longer Send + Sync: {rows.get('sync::Arena')}"))
     return out, rows
 
+def seq_side_stage(prop, P, tier, seed, replay, wdir, chk):
+    """What a handle's own (safe, single-threaded) buffer operations do to bytes OUTSIDE the handle is part of the
+    concurrent properties too: those bytes belong to whoever owns the neighbouring range, on whatever thread. The `buf`
+    histories are run on the implementation and on the model, and the monitors tagged with this property judge the
+    implementation's answers. Returns (mismatches, violations [(sig, msg, case lines)], cases, lines)."""
+    import concurrent.futures as cf
+    sdir = os.path.join(wdir, "seq"); os.makedirs(sdir, exist_ok=True)
+    streams = []
+    if replay:
+        pre = os.path.join(sdir, "replay")
+        chk.run_ops_file(replay, pre)
+        vlib.run_model(replay, pre + ".model")
+        streams.append((replay, open(replay).read().splitlines(True), open(pre + ".impl").read().splitlines(True), open(pre + ".model").read().splitlines(True)))
+    else:
+        jobs = []
+        for (profile, q, th) in P.get("seq", []):
+            total = q if tier == "quick" else th if tier == "thorough" else 2 * q
+            per = max(1, total // chk.JOBS)
+            for k in range(chk.JOBS):
+                jobs.append((profile, seed * 100003 + k * 7919 + 4242, per, os.path.join(sdir, f"{profile}_{k}")))
+        with cf.ThreadPoolExecutor(max_workers=chk.JOBS) as ex:
+            for prefix, rc, summ, ok, err in ex.map(chk.gen_shard, jobs):
+                if rc != 0 or not ok:
+                    log(f"shard {prefix}: rc={rc} model_ok={ok} {err}")
+                try:
+                    streams.append((prefix + ".ops", open(prefix + ".ops").read().splitlines(True),
+                                    open(prefix + ".impl").read().splitlines(True), open(prefix + ".model").read().splitlines(True)))
+                except OSError as e:
+                    log("missing stream", prefix, e)
+    mism, viols, n_cases, n_lines = [], [], 0, 0
+    for (name, ops, impl, model) in streams:
+        starts = vlib.split_cases(ops)
+        n_cases += len(starts); n_lines += len(ops)
+        for m in vlib.diff_streams(ops, impl, model, None):
+            if not m.get("op"): continue
+            mism.append({"stream": name, "case": m["case"], "line": m["line"], "impl": m["impl"], "model": m["model"],
+                         "case_lines": [l.rstrip("\n") for l in vlib.case_lines(ops, m["case_start"])]})
+        for k, st in enumerate(starts):
+            en = starts[k + 1] if k + 1 < len(starts) else len(ops)
+            cops, cobs = ops[st:en], impl[st:en]
+            if len(cobs) != len(cops): continue
+            for v in vlib.monitor_case(cops, cobs, {prop}):
+                if v[0] == prop:
+                    viols.append((v[1], v[2], [l.rstrip("\n") for l in cops]))
+    return mism, viols, n_cases, n_lines
+
 def check(prop, tier, seed, replay, t0, chk):
     P = SPROPS[prop]
     tags = P["tags"] | {prop}
@@ -649,10 +695,18 @@ def check(prop, tier, seed, replay, t0, chk):
         chk.finish(prop, tier, seed, pinfo, {}, t0, 1, [], 0, 0, 0, set())
         return 1
     traits_only = bool(replay) and any(l.strip() == "traits" for l in open(replay))
-    if traits_only:
+    # a replay file of the sequential side stage starts (after its comments) with a `cfg` line
+    seq_replay = bool(replay) and next((l for l in open(replay) if l.strip() and not l.startswith("#")), "").startswith("cfg ")
+    if traits_only or seq_replay:
         mism, mon, n_cases, n_lines, n_events, classes, samples, feat = [], [], 0, 0, 0, set(), [], {}
     else:
         mism, mon, n_cases, n_lines, n_events, classes, samples, feat = sched_stage(prop, P, tags, tier, seed, replay, wdir, S, F)
+    if P.get("seq") and (seq_replay or not replay):
+        qm, qv, qc, ql = seq_side_stage(prop, P, tier, seed, replay if seq_replay else None, wdir, chk)
+        mism += qm; n_cases += qc; n_lines += ql
+        feat["sequential buffer histories (cases)"] = qc
+        for (sig, msg, cl) in qv:
+            mon.append(("seq", 0, cl, (prop, sig, msg)))
     if prop == "C12" and (traits_only or not replay):
         tv, trows = traits_stage()
         feat["auto-trait rows"] = len(trows)
@@ -674,7 +728,7 @@ def check(prop, tier, seed, replay, t0, chk):
         if any(kf["sig"] == sig for kf in known):
             known_lines.append(f"KNOWN-FINDING: property={prop} {sig}: {msg}")
             continue
-        rp = chk.write_replay(prop, re.sub(r"[^A-Za-z0-9_.#@-]", "_", sig), f"# {prop} violated on the implementation: [{p_}/{sig}] {msg}\n# replay: ./check {prop} --replay <this file>\n", cl + ["end"])
+        rp = chk.write_replay(prop, re.sub(r"[^A-Za-z0-9_.#@-]", "_", sig), f"# {prop} violated on the implementation: [{p_}/{sig}] {msg}\n# replay: ./check {prop} --replay <this file>\n", cl + ([] if pre == "seq" else ["end"]))
         violations.append(f"VIOLATION property={prop} replay={rp}")
     broken = []
     if not pinfo["proof_ok"]:
